@@ -6,6 +6,7 @@
 From Coq Require Import List ZArith NArith Bool Sorting.Permutation.
 From RRSS Require Import Base.Outcome Base.Chars Base.F64 Exec.Val Proofs.OrderLaws Proofs.InterpWf.
 From RRSS Require Import Front.Ast Exec.Env Exec.Interp.
+From RRSS Require Import Proofs.FuelMono.
 Import ListNotations.
 
 (** printing: the rendered text is the same for every arrangement of the dictionary ... *)
@@ -64,5 +65,15 @@ Example C10_example :
   v_display (VArr [] d1) = v_display (VArr [] d2) /\ val_eq (VArr [] d1) (VArr [] d2) = true.
 Proof. vm_compute. repeat split; reflexivity. Qed.
 
+(** the model's fuel is not an input: whenever two evaluations of the same program on the same input both
+    finish (with a result, an error, or the resource budget), they give the same outcome — value, error,
+    variables and every byte written *)
+Theorem C10_outcome_unique :
+  forall prof f1 f2 p c,
+  exec_program prof f1 p c <> XOutOfFuel -> exec_program prof f2 p c <> XOutOfFuel ->
+  exec_program prof f1 p c = exec_program prof f2 p c.
+Proof. exact outcome_unique. Qed.
+
 Print Assumptions C10_join_order_independent.
 Print Assumptions C10_runtime_array_order_independent.
+Print Assumptions C10_outcome_unique.
